@@ -302,4 +302,68 @@ def quantize (scale : Nat) (x : Dec) : Dec :=
   if x.exp ≥ target then { x with coeff := x.coeff * 10 ^ (x.exp - target).toNat, exp := target }
   else { x with coeff := divRoundHalfEven x.coeff (target - x.exp).toNat, exp := target }
 
+/-! ### timedelta as text: `pony.converting.timedelta2str` / `str2timedelta` (INTERVAL literals of the non-SQLite dialects, str input of `validate`) -/
+
+def isDigitC (c : Char) : Bool := (digitVal c).isSome
+
+/-- `'%d' % n` for a natural number -/
+def natDigits (n : Nat) : List Char :=
+  if n < 10 then [digitChar n] else natDigits (n / 10) ++ [digitChar (n % 10)]
+termination_by n
+decreasing_by omega
+
+/-- a normalised `datetime.timedelta`: `0 ≤ seconds < 86400`, `0 ≤ microseconds < 10^6`, days of either sign -/
+structure TDelta where
+  days : Int
+  seconds : Nat
+  us : Nat
+  deriving Repr, DecidableEq
+
+def TDelta.valid (t : TDelta) : Prop := t.seconds < 86400 ∧ t.us < 1000000
+/-- the duration in microseconds -/
+def TDelta.micros (t : TDelta) : Int := (t.days * 86400 + t.seconds) * 1000000 + t.us
+
+/-- `pony.converting.timedelta2str` -/
+def timedelta2str (td : TDelta) : List Char :=
+  let total0 : Int := td.days * 86400 + td.seconds
+  -- if td.days < 0: total_seconds = abs(total_seconds); if microseconds: total_seconds -= 1; microseconds = 1000000 - microseconds
+  let total : Nat := if td.days < 0 then (if td.us ≠ 0 then (-total0).toNat - 1 else (-total0).toNat) else total0.toNat
+  let us : Nat := if td.days < 0 then (if td.us ≠ 0 then 1000000 - td.us else td.us) else td.us
+  let minutes0 := total / 60
+  let seconds := total % 60
+  let hours := minutes0 / 60
+  let minutes := minutes0 % 60
+  let result := natDigits hours ++ (':' :: (natDigits minutes ++ (':' :: (natDigits seconds ++ (if us ≠ 0 then '.' :: padN 6 us else [])))))
+  if td.days ≥ 0 then result else '-' :: result
+
+/-- `negative = s.startswith('-')`, and the text without that sign (`abs(int(h))`) -/
+def stripNeg : List Char → Bool × List Char
+  | [] => (false, [])
+  | x :: r => if x = '-' then (true, r) else (false, x :: r)
+
+/-- the unsigned part `h:m:s[.ffffff]` in microseconds -/
+def parseTdBody (body : List Char) : Option Int :=
+  match parseNat (body.takeWhile isDigitC), body.dropWhile isDigitC with
+  | some h, ':' :: r2 =>
+    (match parseNat (r2.takeWhile isDigitC), r2.dropWhile isDigitC with
+     | some m, ':' :: r4 =>
+       (match parseNat (r4.takeWhile isDigitC), r4.dropWhile isDigitC with
+        | some sec, [] => some (((h * 3600 + m * 60 + sec : Nat) : Int) * 1000000)
+        | some sec, '.' :: f =>
+          (match parseNat ((f ++ zeros6).take 6) with
+           | some us => some (((h * 3600 + m * 60 + sec : Nat) : Int) * 1000000 + (us : Int))
+           | none => none)
+        | _, _ => none)
+     | _, _ => none)
+  | _, _ => none
+
+/-- `pony.converting.str2timedelta` on the texts `timedelta2str` writes: optional '-', `h:m:s`, optional `.ffffff`
+    (`int()` of each field, `timedelta(hours=abs(h), minutes=m, seconds=s, microseconds=…)`, negated when the text starts
+    with '-'); result in microseconds -/
+def str2timedelta (s : List Char) : Option Int :=
+  match parseTdBody (stripNeg s).2 with
+  | some v => some (if (stripNeg s).1 then -v else v)
+  | none => none
+
+
 end PonyVerif.Model.Store
